@@ -50,11 +50,14 @@ def is_pure_path(e):
     k = e[0]
     if k in ('var', 'selfAttr', 'traceHandlers', 'int', 'addrs', 'uuids'):
         return True
-    if k in ('field', 'csFrames'):
+    if k in ('field', 'csFrames') or k in CS_ATTR_READS:
         return is_pure_path(e[1])
     if k == 'index':
         return is_pure_path(e[1]) and is_pure_path(e[2])
     return False
+
+
+CS_ATTR_READS = ('loadAddr', 'uuidOf', 'uuidMapA', 'ktraces', 'timestamp', 'tid')
 
 
 def ops(e):
@@ -63,13 +66,15 @@ def ops(e):
     k = e[0]
     if k == 'index':
         return ops(e[1]) + ops(e[2]) + [e]
-    if k in ('field', 'not', 'list1', 'csFrames'):
+    if k in ('field', 'not', 'list1', 'isinstance', 'isNotNone'):
         return ops(e[1])
+    if k == 'csFrames' or k in CS_ATTR_READS:       # an attribute read of a trace object: AttributeError when it is not there
+        return ops(e[1]) + [e]
     if k in ('isIn', 'getOrEmpty', 'sub', 'gt'):
         return ops(e[1]) + ops(e[2])
     if k == 'bisect':
         return ops(e[1]) + ops(e[2]) + [e]
-    if k == 'mkFrame':
+    if k in ('mkFrame', 'mkCallstack'):
         return ops(e[1]) + ops(e[2]) + ops(e[3])
     if k in ('or', 'and'):
         return ops(e[1])
@@ -79,8 +84,10 @@ def ops(e):
 def head_ops(s):
     """The subscripts a statement evaluates before anything else can happen."""
     k = s[0]
-    if k == 'ret':
+    if k in ('ret', 'yield'):
         return ops(s[1])
+    if k == 'callInsert':
+        return ops(s[1]) + ops(s[2])
     if k == 'retCall':
         c = s[1]
         if c[0] == 'self':
@@ -470,8 +477,15 @@ def translate_source(repo):
 # ------------------------------------------------------------------------------------------------------------
 
 CS_EXPR_KINDS = {'none', 'int', 'var', 'addrs', 'uuids', 'csFrames', 'bisect', 'sub', 'gt', 'isIn', 'index', 'mkFrame',
-                 'unsupported'}
+                 'isinstance', 'isNotNone', 'and', 'loadAddr', 'uuidOf', 'uuidMapA', 'ktraces', 'timestamp', 'tid',
+                 'mkCallstack', 'unsupported'}
 CS_ATTRS = {'dyld_addresses': ('addrs',), 'dyld_uuids': ('uuids',)}
+CS_OBJ_ATTRS = {'cs_frames': 'csFrames', 'load_addr': 'loadAddr', 'uuid': 'uuidOf', 'uuid_map_a': 'uuidMapA',
+                'ktraces': 'ktraces', 'timestamp': 'timestamp', 'tid': 'tid'}
+# the classes `feed_generator` may test with isinstance: name -> (module it must be imported from, constructor of Cls)
+CS_CLASSES = {'PerfEvent': ('pykdebugparser.trace_handlers.perf', '.perfEvent'),
+              'DyldUuidMapA': ('pykdebugparser.trace_handlers.dyld', '.dyldUuidMapA'),
+              'DyldLaunchExecutable': ('pykdebugparser.trace_handlers.dyld', '.dyldLaunchExecutable')}
 
 
 class CsTranslator(MethodTranslator):
@@ -496,16 +510,20 @@ class CsTranslator(MethodTranslator):
         if isinstance(n, ast.Attribute):
             if isinstance(n.value, ast.Name) and n.value.id == 'self' and 'self' not in env.m:
                 return CS_ATTRS.get(n.attr, ('unsupported', self.text(n)))
-            if n.attr == 'cs_frames':
-                return ('csFrames', self.expr(n.value, env))
+            if n.attr in CS_OBJ_ATTRS:
+                return (CS_OBJ_ATTRS[n.attr], self.expr(n.value, env))
             return ('unsupported', self.text(n))
         if isinstance(n, ast.Call) and isinstance(n.func, ast.Name) and not n.keywords \
                 and not any(isinstance(a, ast.Starred) for a in n.args) and n.func.id not in env.m:
             kind = self.names.get(n.func.id)
             if kind == 'bisect' and len(n.args) == 2:
                 return ('bisect', self.expr(n.args[0], env), self.expr(n.args[1], env))
-            if kind == 'mkFrame' and len(n.args) == 3:
-                return ('mkFrame',) + tuple(self.expr(a, env) for a in n.args)
+            if kind in ('mkFrame', 'mkCallstack') and len(n.args) == 3:
+                return (kind,) + tuple(self.expr(a, env) for a in n.args)
+            if n.func.id == 'isinstance' and 'isinstance' not in self.names and len(n.args) == 2 \
+                    and isinstance(n.args[1], ast.Name) and n.args[1].id not in env.m \
+                    and str(self.names.get(n.args[1].id, '')).startswith('cls:'):
+                return ('isinstance', self.expr(n.args[0], env), self.names[n.args[1].id][4:])
             return ('unsupported', self.text(n))
         if isinstance(n, ast.BinOp) and isinstance(n.op, ast.Sub):
             return ('sub', self.expr(n.left, env), self.expr(n.right, env))
@@ -519,6 +537,8 @@ class CsTranslator(MethodTranslator):
                 return ('isIn', a, b)
             if isinstance(n.ops[0], ast.NotIn):
                 return ('not', ('isIn', a, b))
+            if isinstance(n.ops[0], (ast.IsNot, ast.Is)) and b == ('none',):      # `x is not None` / `x is None`
+                return ('isNotNone', a) if isinstance(n.ops[0], ast.IsNot) else ('not', ('isNotNone', a))
             return ('unsupported', self.text(n))
         if isinstance(n, ast.Subscript) and not isinstance(n.slice, (ast.Slice, ast.Tuple)):
             return ('index', self.expr(n.value, env), self.expr(n.slice, env))
@@ -535,6 +555,12 @@ class CsTranslator(MethodTranslator):
     def call(self, n, env):
         return None
 
+    def cond(self, c, env, then_fn, else_fn):
+        """`a and b` stays ONE condition (the IR has `and`: left to right, as written); `not` swaps the branches."""
+        if c[0] == 'not':
+            return self.cond(c[1], env, else_fn, then_fn)
+        return ('ite', c, then_fn(env.copy()), else_fn(env.copy()))
+
     def special(self, st, env, nxt):
         if isinstance(st, ast.Assign) and len(st.targets) == 1 and isinstance(st.targets[0], ast.Name) \
                 and isinstance(st.value, ast.List) and not st.value.elts and st.targets[0].id != 'self':
@@ -544,6 +570,23 @@ class CsTranslator(MethodTranslator):
             return ('unsupported', self.text(st))
         if isinstance(st, ast.Return) and isinstance(st.value, ast.Call):
             return ('ret', self.expr(st.value, env))
+        if isinstance(st, ast.Expr) and isinstance(st.value, ast.Yield):
+            if st.value.value is None:
+                return ('unsupported', self.text(st))
+            return ('yield', self.expr(st.value.value, env), nxt(env))
+        if isinstance(st, ast.Expr) and isinstance(st.value, ast.Call) and isinstance(st.value.func, ast.Attribute) \
+                and isinstance(st.value.func.value, ast.Name) and st.value.func.value.id == 'self' and 'self' not in env.m \
+                and st.value.func.attr == 'insert_image' and self.names.get('self.insert_image') == 'callInsert':
+            c = st.value
+            if c.keywords or len(c.args) != 2 or any(isinstance(a, ast.Starred) for a in c.args):
+                return ('unsupported', self.text(st))
+            a, u = self.expr(c.args[0], env), self.expr(c.args[1], env)
+            for lst in (('addrs',), ('uuids',)):            # the callee stores into both lists
+                env.stored(lst)
+                for k_, v_ in list(env.m.items()):
+                    if v_ != ('var', k_) and v_ != lst and any(y == lst for y in subexprs(v_)):
+                        env.m[k_] = ('unsupported', 'stale alias ' + k_)
+            return ('callInsert', a, u, nxt(env))
         if isinstance(st, ast.For):
             if not (isinstance(st.target, ast.Name) and not st.orelse):
                 return ('unsupported', self.text(st))
@@ -575,7 +618,7 @@ def _cs_sanitize(s):
     """expression nodes the callstack IR does not have (a `not`/`or`/`and` outside an `if` condition, a PyIR-only node)"""
     if not isinstance(s, tuple):
         return s
-    if s[0] in ('not', 'or', 'and', 'field', 'selfAttr', 'traceHandlers', 'getOrEmpty', 'list1', 'retCall', 'pop',
+    if s[0] in ('not', 'or', 'field', 'selfAttr', 'traceHandlers', 'getOrEmpty', 'list1', 'retCall', 'pop',
                 'setNewDict', 'setNewList', 'forKeys'):
         return ('unsupported', 'outside the callstack subset: ' + s[0])
     if s[0] == 'append':
@@ -585,8 +628,160 @@ def _cs_sanitize(s):
     return (s[0],) + tuple(_cs_sanitize(x) for x in s[1:])
 
 
+def _first_docless(body):
+    """a function body without its docstring / `pass`"""
+    return [st for st in body
+            if not isinstance(st, ast.Pass)
+            and not (isinstance(st, ast.Expr) and isinstance(st.value, ast.Constant) and isinstance(st.value.value, str))]
+
+
+def _self_attr(n, attrs):
+    """`self.<attr>` with attr in attrs -> attr, else None"""
+    if isinstance(n, ast.Attribute) and isinstance(n.value, ast.Name) and n.value.id == 'self' and n.attr in attrs:
+        return n.attr
+    return None
+
+
+def translate_init(src, cls, notes):
+    """`CallstacksParser.__init__`: -> (params, [(attr constructor, parameter index)])"""
+    text = lambda n: ' '.join((ast.get_source_segment(src, n) or ast.dump(n)).split())[:200]   # noqa: E731
+    fn = next((n for n in cls.body if isinstance(n, ast.FunctionDef) and n.name == '__init__'), None)
+    if fn is None:
+        notes.append('CallstacksParser.__init__ not found')
+        return 0, []
+    a = fn.args
+    if fn.decorator_list or a.vararg or a.kwarg or a.kwonlyargs or a.defaults or a.posonlyargs or not a.args \
+            or a.args[0].arg != 'self':
+        notes.append('signature of CallstacksParser.__init__')
+        return 0, []
+    params = [x.arg for x in a.args[1:]]
+    sets = []
+    for st in _first_docless(fn.body):
+        attr = None
+        if isinstance(st, ast.Assign) and len(st.targets) == 1:
+            attr = _self_attr(st.targets[0], ('dyld_addresses', 'dyld_uuids'))
+        if attr is None or not isinstance(st.value, ast.Name) or st.value.id not in params:
+            notes.append('CallstacksParser.__init__: ' + text(st))
+            continue
+        sets.append(('.dyldAddresses' if attr == 'dyld_addresses' else '.dyldUuids', params.index(st.value.id)))
+    return len(params), sets
+
+
+REQ_LISTS = {'dyld_addresses': '.objAddrs', 'dyld_uuids': '.objUuids'}
+
+
+def translate_request(repo, notes):
+    """`PyKdebugParser.callstacks` of pykdebugparser.py -> (params, [default exprs], body) over Model/PyIRCs.ReqStmt"""
+    with open(os.path.join(repo, 'pykdebugparser', 'pykdebugparser.py')) as fd:
+        src = fd.read()
+    tree = ast.parse(src)
+    text = lambda n: ' '.join((ast.get_source_segment(src, n) or ast.dump(n)).split())[:200]   # noqa: E731
+    ctor = set()                      # module-level names that ARE callstacks_parser.CallstacksParser
+    for node in tree.body:
+        if isinstance(node, ast.ImportFrom) and node.module == 'pykdebugparser.callstacks_parser' and node.level == 0:
+            for al in node.names:
+                if al.name == 'CallstacksParser':
+                    ctor.add(al.asname or al.name)
+        else:
+            for n in ast.walk(node) if not isinstance(node, (ast.ClassDef, ast.FunctionDef)) else []:
+                if isinstance(n, ast.Name) and isinstance(n.ctx, (ast.Store, ast.Del)):
+                    ctor.discard(n.id)
+            if isinstance(node, (ast.ClassDef, ast.FunctionDef)):
+                ctor.discard(node.name)
+    cls = next((n for n in tree.body if isinstance(n, ast.ClassDef) and n.name == 'PyKdebugParser'), None)
+    fn = next((n for n in (cls.body if cls else []) if isinstance(n, ast.FunctionDef) and n.name == 'callstacks'), None)
+    if fn is None:
+        return 0, [], ('unsupported', 'method PyKdebugParser.callstacks not found')
+    # the two attributes are two separate list objects made in __init__, and nothing else rebinds them
+    init = next((n for n in cls.body if isinstance(n, ast.FunctionDef) and n.name == '__init__'), None)
+    made = {}
+    for st in (init.body if init else []):
+        if isinstance(st, ast.Assign) and len(st.targets) == 1 and _self_attr(st.targets[0], REQ_LISTS) \
+                and isinstance(st.value, ast.List) and not st.value.elts:
+            made[st.targets[0].attr] = made.get(st.targets[0].attr, 0) + 1
+    for attr in REQ_LISTS:
+        if made.get(attr) != 1:
+            notes.append('PyKdebugParser.__init__ does not make self.%s one fresh empty list' % attr)
+    for n in ast.walk(cls):
+        if isinstance(n, ast.Attribute) and isinstance(n.ctx, (ast.Store, ast.Del)) and _self_attr(n, REQ_LISTS):
+            ok = init is not None and any(isinstance(st, ast.Assign) and len(st.targets) == 1 and st.targets[0] is n
+                                          and isinstance(st.value, ast.List) and not st.value.elts for st in init.body)
+            if not ok:
+                notes.append('self.%s is rebound (line %d)' % (n.attr, n.lineno))
+    a = fn.args
+    if fn.decorator_list or a.vararg or a.kwarg or a.kwonlyargs or a.posonlyargs or not a.args or a.args[0].arg != 'self':
+        return 0, [], ('unsupported', 'signature of callstacks')
+    params = [x.arg for x in a.args[1:]]
+    defaults = []
+    for d in a.defaults:
+        defaults.append(('none',) if isinstance(d, ast.Constant) and d.value is None else ('unsupported', text(d)))
+    order = list(params)
+
+    def listref(n):
+        at = _self_attr(n, REQ_LISTS)
+        return REQ_LISTS[at] if at else None
+
+    def new_parser(call):
+        """`CallstacksParser(<list>, <list>)` -> (a, b) or None"""
+        if isinstance(call, ast.Call) and isinstance(call.func, ast.Name) and call.func.id in ctor \
+                and call.func.id not in order and not call.keywords and len(call.args) == 2:
+            ab = [listref(x) for x in call.args]
+            if None not in ab:
+                return ab
+        return None
+
+    def go(stmts, parsers):
+        """parsers: locals that hold a CallstacksParser made in this body"""
+        if not stmts:
+            return ('unsupported', 'callstacks() falls off its end')
+        st, rest = stmts[0], stmts[1:]
+        if isinstance(st, ast.Expr) and isinstance(st.value, ast.Call) and isinstance(st.value.func, ast.Attribute) \
+                and st.value.func.attr == 'clear' and not st.value.args and not st.value.keywords \
+                and listref(st.value.func.value):
+            return ('clear', listref(st.value.func.value), go(rest, parsers))
+        if isinstance(st, ast.Assign) and len(st.targets) == 1 and isinstance(st.targets[0], ast.Name) \
+                and st.targets[0].id != 'self' and st.targets[0].id not in params and new_parser(st.value):
+            name = st.targets[0].id
+            if name not in order:
+                order.append(name)
+            ab = new_parser(st.value)
+            return ('newParser', order.index(name), ab[0], ab[1], go(rest, parsers | {name}))
+        if isinstance(st, ast.Return) and isinstance(st.value, ast.Call) and isinstance(st.value.func, ast.Attribute) \
+                and st.value.func.attr == 'feed_generator' and not st.value.keywords and len(st.value.args) == 1:
+            recv, arg = st.value.func.value, st.value.args[0]
+            src_ok = (isinstance(arg, ast.Call) and isinstance(arg.func, ast.Attribute) and arg.func.attr == 'traces'
+                      and isinstance(arg.func.value, ast.Name) and arg.func.value.id == 'self' and not arg.keywords
+                      and len(arg.args) == 2 and all(isinstance(x, ast.Name) and x.id in params for x in arg.args))
+            if src_ok:
+                k, c = (params.index(x.id) for x in arg.args)
+                if isinstance(recv, ast.Name) and recv.id in parsers:
+                    return ('retFeed', order.index(recv.id), k, c)
+                if new_parser(recv):                       # `return CallstacksParser(a, b).feed_generator(…)`
+                    ab = new_parser(recv)
+                    v = len(order)
+                    return ('newParser', v, ab[0], ab[1], ('retFeed', v, k, c))
+        return ('unsupported', text(st))
+
+    return len(params), defaults, go(_first_docless(fn.body), frozenset())
+
+
+_NEXT = {'assign': 3, 'assignNewList': 2, 'forIn': 4, 'insert': 4, 'appendVar': 3, 'callInsert': 3}
+
+
+def _swap_final_yield(s):
+    """the statement chain `s` with its final `yield Callstack(_, _, <local>)` replaced by `return <local>` (None: no such end)"""
+    k = s[0]
+    if k == 'yield' and s[2] == ('done',) and s[1][0] == 'mkCallstack' and s[1][3][0] == 'var':
+        return ('ret', s[1][3])
+    if k in _NEXT:
+        r = _swap_final_yield(s[_NEXT[k]])
+        return None if r is None else s[:_NEXT[k]] + (r,) + s[_NEXT[k] + 1:]
+    return None
+
+
 def translate_callstacks(repo):
-    """-> ({'insertImage': (params, body), 'frameLoop': (params, body)}, notes)"""
+    """-> ({'insertImage': (params, body), 'frameLoop': (params, body), 'feedGenerator': (params, body),
+            'init': (params, sets), 'callstacks': (params, defaults, body)}, notes)"""
     with open(os.path.join(repo, 'pykdebugparser', 'callstacks_parser.py')) as fd:
         src = fd.read()
     tree = ast.parse(src)
@@ -596,53 +791,106 @@ def translate_callstacks(repo):
             for al in node.names:
                 if al.name in ('bisect', 'bisect_right'):
                     names[al.asname or al.name] = 'bisect'
-        if isinstance(node, ast.Assign) and len(node.targets) == 1 and isinstance(node.targets[0], ast.Name):
+        elif isinstance(node, ast.ImportFrom) and node.level == 0:
+            for al in node.names:
+                bound = al.asname or al.name
+                if al.name in CS_CLASSES and CS_CLASSES[al.name][0] == node.module:
+                    names[bound] = 'cls:' + CS_CLASSES[al.name][1]
+                elif bound in names:
+                    del names[bound]
+        elif isinstance(node, ast.Assign) and len(node.targets) == 1 and isinstance(node.targets[0], ast.Name):
             v = node.value
+            fields = None
             if isinstance(v, ast.Call) and isinstance(v.func, ast.Name) and v.func.id == 'namedtuple' and len(v.args) == 2 \
-                    and isinstance(v.args[1], ast.List) \
-                    and [getattr(e, 'value', None) for e in v.args[1].elts] == ['address', 'uuid', 'offset']:
+                    and isinstance(v.args[1], ast.List):
+                fields = [getattr(e, 'value', None) for e in v.args[1].elts]
+            if fields == ['address', 'uuid', 'offset']:
                 names[node.targets[0].id] = 'mkFrame'
+            elif fields == ['timestamp', 'tid', 'frames']:
+                names[node.targets[0].id] = 'mkCallstack'
             elif node.targets[0].id in names:
                 del names[node.targets[0].id]
+        elif isinstance(node, (ast.FunctionDef, ast.ClassDef)) and node.name in names:
+            del names[node.name]
+        elif isinstance(node, (ast.FunctionDef, ast.ClassDef)) and node.name == 'isinstance':
+            names['isinstance'] = 'shadowed'
     cls = next((n for n in tree.body if isinstance(n, ast.ClassDef) and n.name == 'CallstacksParser'), None)
     fns = {n.name: n for n in (cls.body if cls else []) if isinstance(n, ast.FunctionDef)}
     out = {}
+    if cls is None:
+        notes.append('class CallstacksParser not found')
+    else:
+        if cls.bases or cls.keywords or cls.decorator_list:
+            notes.append('CallstacksParser has bases / decorators')
+        for n in cls.body:
+            if isinstance(n, ast.FunctionDef) and (n.decorator_list or n.name in (
+                    '__getattr__', '__getattribute__', '__setattr__', '__new__', '__init_subclass__')):
+                notes.append('CallstacksParser.%s: decorated or an attribute hook' % n.name)
+            elif not isinstance(n, ast.FunctionDef) and not (isinstance(n, ast.Expr) and isinstance(n.value, ast.Constant)):
+                notes.append('CallstacksParser: class-level statement at line %d' % n.lineno)
+        for n in ast.walk(cls):                 # the two attributes are bound in __init__ only
+            if isinstance(n, ast.Attribute) and isinstance(n.ctx, (ast.Store, ast.Del)) \
+                    and _self_attr(n, ('dyld_addresses', 'dyld_uuids', 'insert_image', 'feed_generator')) \
+                    and not ('__init__' in fns and any(n is x for x in ast.walk(fns['__init__']))):
+                notes.append('self.%s is assigned outside __init__ (line %d)' % (n.attr, n.lineno))
+    out['init'] = translate_init(src, cls, notes) if cls is not None else (0, [])
     if 'insert_image' in fns:
         p, b = CsTranslator(src, fns['insert_image'], names).translate()
         out['insertImage'] = (p, _cs_sanitize(b))
+        names = dict(names)
+        names['self.insert_image'] = 'callInsert'       # `self.insert_image(a, u)` is a call of the method translated above
     else:
         out['insertImage'] = (0, ('unsupported', 'method insert_image not found'))
-    # the frame loop: inside `for trace in generator:` the first `if`'s body up to `yield Callstack(_, _, <frames>)`
     out['frameLoop'] = (0, ('unsupported', 'frame loop of feed_generator not found'))
+    out['feedGenerator'] = (0, ('unsupported', 'method feed_generator not found'))
     fg = fns.get('feed_generator')
-    if fg is not None and not fg.decorator_list:
-        loops = [st for st in fg.body if isinstance(st, ast.For)]
-        if len(loops) == 1 and isinstance(loops[0].target, ast.Name) and loops[0].body \
-                and isinstance(loops[0].body[0], ast.If):
-            trace, blk = loops[0].target.id, loops[0].body[0].body
-            last = blk[-1] if blk else None
-            y = last.value if isinstance(last, ast.Expr) and isinstance(last.value, ast.Yield) else None
-            if y is not None and isinstance(y.value, ast.Call) and len(y.value.args) == 3 and not y.value.keywords \
-                    and isinstance(y.value.args[2], ast.Name) \
-                    and not any(isinstance(x, (ast.Yield, ast.YieldFrom)) for st in blk[:-1] for x in ast.walk(st)):
-                res = y.value.args[2].id
-                mt = CsTranslator(src, fg, names)
-                env = Env({trace: ('var', trace)})
-                body = mt.block(blk[:-1], env,
-                                lambda e: ('ret', e.m.get(res, ('unsupported', 'yielded name %s is not bound' % res))))
-                p, b = mt.finish([trace], body)
-                out['frameLoop'] = (p, _cs_sanitize(b))
+    if fg is not None:
+        # the whole method
+        mt = CsTranslator(src, fg, names)
+        a = fg.args
+        if (fg.decorator_list or a.vararg or a.kwarg or a.kwonlyargs or a.defaults or a.posonlyargs
+                or not a.args or a.args[0].arg != 'self'):
+            out['feedGenerator'] = (0, ('unsupported', 'signature of feed_generator'))
+        else:
+            params = [x.arg for x in a.args[1:]]
+            body = mt.block(fg.body, Env({p_: ('var', p_) for p_ in params}), lambda e: ('ret', ('none',)))
+            p, b = mt.finish(params, body)
+            out['feedGenerator'] = (p, _cs_sanitize(b))
+            # the frame loop alone (kept as a block of its own: `frame_loop_ir_eq_model`): inside `for trace in generator:`
+            # the first branch of the dispatch, its final `yield Callstack(_, _, <frames>)` replaced by `return <frames>`,
+            # the trace as the parameter
+            if body[0] == 'forIn' and body[3][0] == 'ite':
+                branch = _swap_final_yield(body[3][2])
+                if branch is not None:
+                    p, b = mt.finish([body[1]], branch)
+                    out['frameLoop'] = (p, _cs_sanitize(b))
+    out['callstacks'] = translate_request(repo, notes)
     return out, notes
+
+
+def _lean_req(s, lean_str):
+    if s[0] == 'unsupported':
+        return '(.unsupported %s)' % lean_str(s[1])
+    return '(.%s %s)' % (s[0], ' '.join(_lean_req(x, lean_str) if isinstance(x, tuple) else str(x) for x in s[1:]))
 
 
 def generate_callstacks(repo, write_if_changed, lean_str):
     blocks, notes = translate_callstacks(repo)
     L = ['import KdVerif.Model.PyIRCs', 'namespace KdVerif.Gen.PyIRCs', 'open KdVerif.PyIRCs', '',
-         '/-! `CallstacksParser.insert_image` and the frame loop of `feed_generator` (pykdebugparser/callstacks_parser.py),',
+         '/-! `CallstacksParser.__init__` / `insert_image` / `feed_generator` (whole, and its frame loop alone) of',
+         '    pykdebugparser/callstacks_parser.py and `PyKdebugParser.callstacks` of pykdebugparser/pykdebugparser.py,',
          '    symbolically evaluated from the source text into the IR of `Model/PyIRCs` (tools/gen_pyir.py). -/', '']
-    for field in ('insertImage', 'frameLoop'):
+    p, sets = blocks['init']
+    L.append('def init : InitDef := { params := %d, sets := [%s] }\n' % (p, ', '.join('(%s, %d)' % x for x in sets)))
+    for field in ('insertImage', 'frameLoop', 'feedGenerator'):
         params, body = blocks[field]
         L.append('def %s : Block := { params := %d, body :=\n  %s }\n' % (field, params, lean(body, lean_str)))
+    p, defaults, body = blocks['callstacks']
+    L.append('def callstacks : RequestDef := { params := %d, defaults := [%s], body :=\n  %s }\n'
+             % (p, ', '.join(lean(d, lean_str) for d in defaults), _lean_req(body, lean_str)))
+    L.append('def prog : Prog := { init := init, insertImage := insertImage, feedGenerator := feedGenerator, '
+             'callstacks := callstacks }\n')
+    L.append('/-- What the translator could not express outside the method bodies (must be empty). -/')
     L.append('def notes : List String := [' + ', '.join(lean_str(n) for n in notes) + ']\n')
     L += ['end KdVerif.Gen.PyIRCs', '']
     return write_if_changed('PyIRCs.lean', '\n'.join(L))
